@@ -201,6 +201,24 @@ fn handle(line: &str) -> String {
             }
             format!("same={}{}", same, why)
         }
+        "repeat" => {
+            // repeat <level 0..3>: every two-digit numeric input built 6 times on this thread; any run-to-run difference
+            // (randomly seeded hashers, address-dependent ordering) is reported with the input
+            use crate::qr::QRBuilder;
+            let l = ecl(a[1]);
+            for i in 0..100u32 {
+                let inp = format!("{:02}", i);
+                let first = QRBuilder::new(inp.clone()).ecl(l).build().map(|q| qr_fields(&q)).unwrap_or("ERR".into());
+                for _ in 0..5 {
+                    let again = QRBuilder::new(inp.clone()).ecl(l).build().map(|q| qr_fields(&q)).unwrap_or("ERR".into());
+                    if again != first {
+                        let pick = |s: &str| s.split(" data=").next().unwrap_or("").to_string();
+                        return format!("same=false input={} first=[{}] again=[{}]", inp, pick(&first), pick(&again));
+                    }
+                }
+            }
+            "same=true".to_string()
+        }
         "history" => {
             // history <hex input> <op,op,..>: ops b (build), m<i> e<i> v<i> k<i> (mode/ecl/version/mask setters) applied to
             // ONE builder; the last build is compared with a fresh builder configured with the final option state
